@@ -1,8 +1,241 @@
 /-
-  C15 — property theorems (only `theorem C15_*` statements and non-vacuity examples live here;
-  helper lemmas go to CedarGoProofs/Lemmas/).
+  C15 — Validated policies cannot fail with type errors.   PARTIAL: proved on a fragment of the validator.
+
+  Full statement (NOT a theorem of the unchanged code, see the counterexamples below):
+    theorem C15_typeOf_sound : typeOf false Γ e caps = .ok (τ, caps') → EnvOK Γ env → CapsHold env caps →
+        Sound env τ caps' (eval e env)
+
+  What is proved (`C15_typeOf_sound_partial`): the statement for `typeOf true`, i.e. for the Go algorithm
+  (`typeOf false`, transcribed from typechecker.go and tied to `validate.New(..).Policy` by the `validate`
+  correspondence op) restricted to the domain `dom = true`.  `typeOf true` is `typeOf false` plus these extra rejections:
+    (D1) `< <= > >=`: both sides must have the SAME comparable type (the Go code only checks "each side comparable":
+         `C15_comparison_counterexample`);
+    (D2) attribute names in `has` / `.` contain no '.' (capability keys are dotted renderings of access paths and
+         collide otherwise: `C15_capability_collision_counterexample`);
+    (D3) unknown extension functions are rejected (the Go code accepts them with ZERO arguments and gives them no
+         type: `C15_unknown_function_counterexample`);
+    (D4) permissive mode: the record LUB fails instead of silently dropping an attribute with incompatible types
+         (`C15_lub_drop_counterexample`);
+    (D5) extension constructors take a string literal also in permissive mode (non-literal arguments would need
+         "the parsers only raise extension errors", not proved);
+    (D6) `context == context` / `context != context` are not folded to True / False (would need reflexivity of
+         `Value.beq` on arbitrary records, not proved).
+  Constructs covered: Bool/Long/String/EntityUID literals; principal/action/resource/context with the schema-given
+  entity types and context record type; `&& || ! if` with True/False singleton types, short-circuiting (dead branches are
+  only checked for entity references) and capability propagation; `== !=` with same-variable, literal and
+  disjoint-entity-type folding and the strict LUB test; `< <= > >=`; `+ - *`; unary minus; `has` and `.` on RECORD types with
+  required/optional attributes and `has`-capabilities (incl. nested paths `context.a.b`); set literals (LUB of element types,
+  strict and permissive, incl. records); record literals (duplicate keys: last wins); `contains containsAll containsAny isEmpty`;
+  `like`; all 22 extension functions (constructors on string literals).  Outside the model (`typeOf` answers
+  `unsupported`, never `ok`): `has`/`.` on entity types, `in`, `is`, `is..in`, `getTag`, `hasTag`.
+  Both validation modes (Γ.strict arbitrary).  Conclusion (`Sound`): evaluation yields a value of the computed type —
+  and if that value is `true` the output capabilities hold — or fails with overflow / absent entity / an extension error;
+  never with a type, arity, unknown-function, missing-attribute or missing-tag error.
 -/
-import CedarGo.Model.Fold
+import CedarGoProofs.Lemmas.C15
 namespace CedarGo
+open CedarGo.Validate
+
+mutual
+/-- **Soundness of the validator's type checker on its proved domain** (see the file header). -/
+theorem C15_typeOf_sound_partial (Γ : TEnv) (env : Env) (hΓ : EnvOK Γ env) :
+    ∀ (e : Expr) (caps : Caps) (τ : Ty) (caps' : Caps), CapsHold env caps →
+      typeOf true Γ e caps = .ok (τ, caps') → Sound env τ caps' (eval e env)
+  | .lit v, _, _, _, hc, h => sound_lit hc h
+  | .var x, _, _, _, hc, h => sound_var hΓ hc h
+  | .unop .not e, caps, _, _, hc, h => sound_not (fun τ c' h' => C15_typeOf_sound_partial Γ env hΓ e caps τ c' hc h') hc h
+  | .unop .neg e, caps, _, _, hc, h => sound_neg (fun τ c' h' => C15_typeOf_sound_partial Γ env hΓ e caps τ c' hc h') hc h
+  | .unop .isEmpty e, caps, _, _, hc, h => sound_isEmpty (fun τ c' h' => C15_typeOf_sound_partial Γ env hΓ e caps τ c' hc h') hc h
+  | .like e p, caps, _, _, hc, h => sound_like (fun τ c' h' => C15_typeOf_sound_partial Γ env hΓ e caps τ c' hc h') hc h
+  | .binop .and l r, _, _, _, hc, h => sound_and (C15_typeOf_sound_partial Γ env hΓ l) (C15_typeOf_sound_partial Γ env hΓ r) hc h
+  | .binop .or l r, _, _, _, hc, h => sound_or (C15_typeOf_sound_partial Γ env hΓ l) (C15_typeOf_sound_partial Γ env hΓ r) hc h
+  | .ite c t e, _, _, _, hc, h =>
+    sound_ite (C15_typeOf_sound_partial Γ env hΓ c) (C15_typeOf_sound_partial Γ env hΓ t) (C15_typeOf_sound_partial Γ env hΓ e) hc h
+  | .binop .eq l r, _, _, _, hc, h =>
+    sound_eq (neg := false) hΓ (C15_typeOf_sound_partial Γ env hΓ l) (C15_typeOf_sound_partial Γ env hΓ r) hc h
+  | .binop .ne l r, _, _, _, hc, h =>
+    sound_eq (neg := true) hΓ (C15_typeOf_sound_partial Γ env hΓ l) (C15_typeOf_sound_partial Γ env hΓ r) hc h
+  | .binop .lt l r, _, _, _, hc, h => sound_cmp (.inl rfl) (C15_typeOf_sound_partial Γ env hΓ l) (C15_typeOf_sound_partial Γ env hΓ r) hc h
+  | .binop .le l r, _, _, _, hc, h => sound_cmp (.inr (.inl rfl)) (C15_typeOf_sound_partial Γ env hΓ l) (C15_typeOf_sound_partial Γ env hΓ r) hc h
+  | .binop .gt l r, _, _, _, hc, h => sound_cmp (.inr (.inr (.inl rfl))) (C15_typeOf_sound_partial Γ env hΓ l) (C15_typeOf_sound_partial Γ env hΓ r) hc h
+  | .binop .ge l r, _, _, _, hc, h => sound_cmp (.inr (.inr (.inr rfl))) (C15_typeOf_sound_partial Γ env hΓ l) (C15_typeOf_sound_partial Γ env hΓ r) hc h
+  | .binop .add l r, _, _, _, hc, h => sound_arith (.inl rfl) (C15_typeOf_sound_partial Γ env hΓ l) (C15_typeOf_sound_partial Γ env hΓ r) hc h
+  | .binop .sub l r, _, _, _, hc, h => sound_arith (.inr (.inl rfl)) (C15_typeOf_sound_partial Γ env hΓ l) (C15_typeOf_sound_partial Γ env hΓ r) hc h
+  | .binop .mul l r, _, _, _, hc, h => sound_arith (.inr (.inr rfl)) (C15_typeOf_sound_partial Γ env hΓ l) (C15_typeOf_sound_partial Γ env hΓ r) hc h
+  | .binop .contains l r, _, _, _, hc, h => sound_contains (C15_typeOf_sound_partial Γ env hΓ l) (C15_typeOf_sound_partial Γ env hΓ r) hc h
+  | .binop .containsAll l r, _, _, _, hc, h => sound_containsAA (.inl rfl) (C15_typeOf_sound_partial Γ env hΓ l) (C15_typeOf_sound_partial Γ env hΓ r) hc h
+  | .binop .containsAny l r, _, _, _, hc, h => sound_containsAA (.inr rfl) (C15_typeOf_sound_partial Γ env hΓ l) (C15_typeOf_sound_partial Γ env hΓ r) hc h
+  | .has e a, _, _, _, hc, h => sound_has (C15_typeOf_sound_partial Γ env hΓ e) hc h
+  | .access e a, _, _, _, hc, h => sound_access (C15_typeOf_sound_partial Γ env hΓ e) hc h
+  | .set es, _, _, _, hc, h => sound_set (allIH_mem (C15_sound_list Γ env hΓ es)) hc h
+  | .record kes, _, _, _, hc, h => sound_record (allIHKV_mem (C15_sound_kvs Γ env hΓ kes)) hc h
+  | .call fn args, _, _, _, hc, h => sound_call (allIH_mem (C15_sound_list Γ env hΓ args)) hc h
+  -- outside the model: `typeOf` never answers `ok`
+  | .binop .in_ _ _, _, _, _, _, h => by simp [typeOf] at h
+  | .binop .getTag _ _, _, _, _, _, h => by simp [typeOf] at h
+  | .binop .hasTag _ _, _, _, _, _, h => by simp [typeOf] at h
+  | .is _ _, _, _, _, _, h => by simp [typeOf] at h
+  | .isIn _ _ _, _, _, _, _, h => by simp [typeOf] at h
+/-- the same for every element of a set literal / argument list -/
+theorem C15_sound_list (Γ : TEnv) (env : Env) (hΓ : EnvOK Γ env) : ∀ (es : List Expr), AllIH Γ env es
+  | [] => trivial
+  | e :: es => ⟨C15_typeOf_sound_partial Γ env hΓ e, C15_sound_list Γ env hΓ es⟩
+/-- … and for every entry of a record literal -/
+theorem C15_sound_kvs (Γ : TEnv) (env : Env) (hΓ : EnvOK Γ env) : ∀ (kes : List (String × Expr)), AllIHKV Γ env kes
+  | [] => trivial
+  | (_, e) :: kes => ⟨C15_typeOf_sound_partial Γ env hΓ e, C15_sound_kvs Γ env hΓ kes⟩
+end
+
+
+/-- **The proved domain lies inside what the Go algorithm accepts**: whatever the domain-restricted checker accepts,
+    the transcription of the Go type checker (`typeOf false`, the function the `validate` correspondence ties to
+    `validate.New(..).Policy`) accepts with the SAME type and the SAME capabilities.  Together with
+    `C15_typeOf_sound_partial`: the Go checker is sound on every expression of the fragment that passes (D1)–(D6). -/
+theorem C15_dom_accept_is_go_accept (Γ : TEnv) (e : Expr) (caps : Caps) (res : Ty × Caps)
+    (h : typeOf true Γ e caps = .ok res) : typeOf false Γ e caps = .ok res :=
+  typeOf_dom_go Γ e caps res h
+
+/-- Corollary at the level `typecheckConditions` works at: a condition body the (domain-restricted) checker accepts in
+    environment Γ evaluates, on every request/store that conforms to Γ, to a Boolean or fails with an allowed error. -/
+theorem C15_condition_sound_partial (Γ : TEnv) (env : Env) (hΓ : EnvOK Γ env) (body : Expr)
+    (h : condOK true Γ body = .ok true) :
+    (∃ b, eval body env = .ok (.bool b)) ∨ (∃ k, eval body env = .error k ∧ Allowed k) := by
+  unfold condOK at h
+  split at h
+  · simp at h
+  · simp at h
+  · rename_i t c ht
+    have hs := (C15_typeOf_sound_partial Γ env hΓ body [] t c (capsHold_nil env) ht).2
+    simp only [Except.ok.injEq, Bool.or_eq_true] at h
+    cases hr : eval body env with
+    | error k => rw [hr] at hs; exact .inr ⟨k, rfl, hs⟩
+    | ok v =>
+      rw [hr] at hs
+      rcases h with h | h
+      · cases hs.1 <;> simp [Ty.isNil] at h
+      · obtain ⟨b, rfl⟩ := hasTy_boolish h hs.1
+        exact .inl ⟨b, rfl⟩
+
+/-! ## Concrete environment for the counterexamples and the non-vacuity examples
+
+  schema: `entity User; entity Doc; action view appliesTo {principal: User, resource: Doc,
+           context: {n: Long, o?: Long, "a.b": {x?: Long}, a: {b: {x?: Long}}}}`
+  request: principal User::"a", resource Doc::"d", context `{n: 3, "a.b": {x: 1}, a: {b: {}}}` (o absent). -/
+
+def c15Γ (strict : Bool) : TEnv where
+  principalType := "User"
+  action := ("Action", "view")
+  resourceType := "Doc"
+  context := [("n", .long, true), ("o", .long, false), ("a.b", .record [("x", .long, false)], true),
+              ("a", .record [("b", .record [("x", .long, false)], true)], true)]
+  entityTypes := ["User", "Doc"]
+  actions := [("Action", "view")]
+  strict := strict
+
+def c15Env : Env where
+  entities := []
+  principal := .entity "User" "a"
+  action := .entity "Action" "view"
+  resource := .entity "Doc" "d"
+  context := .record [("n", .long 3), ("a.b", .record [("x", .long 1)]), ("a", .record [("b", .record [])])]
+
+/-- the request conforms to the environment -/
+theorem c15Env_ok (strict : Bool) : EnvOK (c15Γ strict) c15Env := by
+  refine ⟨⟨"a", rfl⟩, ⟨"view", rfl⟩, ⟨"d", rfl⟩, ⟨_, rfl, ?_⟩⟩
+  refine hasTy_record_cons (HasTy.long _) (hasTy_record_skip ?_ (by decide))
+  refine hasTy_record_cons ?_ (hasTy_record_cons ?_ hasTy_record_nil)
+  · exact hasTy_record_cons (HasTy.long _) hasTy_record_nil
+  · exact hasTy_record_cons (hasTy_record_skip hasTy_record_nil (by decide)) hasTy_record_nil
+
+instance c15DecEqCondRes : DecidableEq (Except TErr Bool)
+  | .ok a, .ok b => if h : a = b then isTrue (by rw [h]) else isFalse (by intro h'; cases h'; exact h rfl)
+  | .error a, .error b => if h : a = b then isTrue (by rw [h]) else isFalse (by intro h'; cases h'; exact h rfl)
+  | .ok _, .error _ => isFalse (by intro h; cases h)
+  | .error _, .ok _ => isFalse (by intro h; cases h)
+
+def isErr (k : Err) : Res → Bool | .error k' => k == k' | _ => false
+theorem isErr_eq {k : Err} {r : Res} (h : isErr k r = true) : r = .error k := by
+  cases r with
+  | ok v => simp [isErr] at h
+  | error k' => simp only [isErr, beq_iff_eq] at h; rw [h]
+def acceptsAs (t : Ty → Bool) : TRes → Bool | .ok (ty, _) => t ty | _ => false
+theorem acceptsAs_eq {t : Ty → Bool} {r : TRes} (h : acceptsAs t r = true) : ∃ ty c, r = .ok (ty, c) ∧ t ty = true := by
+  match r, h with
+  | .ok (ty, c), h => exact ⟨ty, c, rfl, h⟩
+
+/-- `1 < datetime("2020-01-01")` -/
+def c15Cmp : Expr := .binop .lt (.lit (.long 1)) (.call "datetime" [.lit (.str "2020-01-01")])
+
+/-- **The Go type checker is unsound (1)**: it accepts `1 < datetime("2020-01-01")` as Bool (each side is only checked to be
+    "comparable"), in strict and permissive mode, and evaluation fails with a TYPE error on a conforming request. -/
+theorem C15_comparison_counterexample (strict : Bool) :
+    EnvOK (c15Γ strict) c15Env ∧ (∃ c, typeOf false (c15Γ strict) c15Cmp [] = .ok (.bool, c)) ∧
+    condOK false (c15Γ strict) c15Cmp = .ok true ∧ eval c15Cmp c15Env = .error .type := by
+  refine ⟨c15Env_ok strict, ?_, ?_, isErr_eq (by decide +kernel)⟩
+  · have h : acceptsAs (fun t => match t with | .bool => true | _ => false) (typeOf false (c15Γ strict) c15Cmp []) = true := by
+      cases strict <;> decide +kernel
+    obtain ⟨ty, c, hr, ht⟩ := acceptsAs_eq h
+    cases ty <;> simp at ht
+    exact ⟨c, hr⟩
+  · cases strict <;> decide +kernel
+
+/-- the domain-restricted checker rejects it -/
+theorem C15_comparison_rejected_in_domain (strict : Bool) : typeOf true (c15Γ strict) c15Cmp [] = .error .reject := by
+  have h : (match typeOf true (c15Γ strict) c15Cmp [] with | .error .reject => true | _ => false) = true := by
+    cases strict <;> decide +kernel
+  split at h <;> simp_all
+
+/-- `foo()`: a call of an unknown function with no arguments -/
+def c15Foo : Expr := .call "foo" []
+
+/-- **Unsound (2)**: an unknown extension function applied to ZERO arguments gets no type and no error; the condition
+    `when { foo() }` is accepted and evaluation fails with an unknown-function error. -/
+theorem C15_unknown_function_counterexample (strict : Bool) :
+    condOK false (c15Γ strict) c15Foo = .ok true ∧ eval c15Foo c15Env = .error .unknownFn :=
+  ⟨by cases strict <;> decide +kernel, isErr_eq (by decide +kernel)⟩
+
+/-- `context["a.b"] has x && context.a.b.x > 0` -/
+def c15Coll : Expr :=
+  .binop .and (.has (.access (.var .context) "a.b") "x")
+    (.binop .gt (.access (.access (.access (.var .context) "a") "b") "x") (.lit (.long 0)))
+
+/-- **Unsound (3)**: capabilities are keyed by the dotted rendering of the access path, so the `has` test on
+    `context["a.b"]` licenses the access `context.a.b.x`; evaluation fails with a missing-ATTRIBUTE error. -/
+theorem C15_capability_collision_counterexample (strict : Bool) :
+    EnvOK (c15Γ strict) c15Env ∧ condOK false (c15Γ strict) c15Coll = .ok true ∧ eval c15Coll c15Env = .error .attr :=
+  ⟨c15Env_ok strict, by cases strict <;> decide +kernel, isErr_eq (by decide +kernel)⟩
+
+/-- the two access paths render to the same capability key -/
+theorem C15_exprVarName_not_injective :
+    exprVarName (.access (.var .context) "a.b") = exprVarName (.access (.access (.var .context) "a") "b") := by decide +kernel
+
+/-- `(if principal == principal … )`-free version: `(if context.n > 0 then {a: 1} else {a: "s"}) has a && !5` -/
+def c15Lub : Expr :=
+  .binop .and
+    (.has (.ite (.binop .gt (.access (.var .context) "n") (.lit (.long 0))) (.record [("a", .lit (.long 1))]) (.record [("a", .lit (.str "s"))])) "a")
+    (.unop .not (.lit (.long 5)))
+
+/-- **Unsound (4), permissive mode**: the LUB of `{a: Long}` and `{a: String}` silently drops `a`, `… has a` is typed
+    False, the right operand of `&&` is never type-checked, and evaluation fails with a TYPE error.  Strict mode rejects. -/
+theorem C15_lub_drop_counterexample :
+    EnvOK (c15Γ false) c15Env ∧ condOK false (c15Γ false) c15Lub = .ok true ∧ eval c15Lub c15Env = .error .type ∧
+    condOK false (c15Γ true) c15Lub = .ok false :=
+  ⟨c15Env_ok false, by decide +kernel, isErr_eq (by decide +kernel), by decide +kernel⟩
+
+/-! ## Non-vacuity: the hypotheses of the soundness theorem are met by a non-trivial expression -/
+
+/-- `context has o && context.o + context.n > 0 || [1, 2].contains(context.n) && decimal("1.5").lessThan(decimal("2.0"))` -/
+def c15Good : Expr :=
+  .binop .or
+    (.binop .and (.has (.var .context) "o")
+      (.binop .gt (.binop .add (.access (.var .context) "o") (.access (.var .context) "n")) (.lit (.long 0))))
+    (.binop .and (.binop .contains (.set [.lit (.long 1), .lit (.long 2)]) (.access (.var .context) "n"))
+      (.call "lessThan" [.call "decimal" [.lit (.str "1.5")], .call "decimal" [.lit (.str "2.0")]]))
+
+example : condOK true (c15Γ true) c15Good = .ok true ∧ condOK true (c15Γ false) c15Good = .ok true := by
+  constructor <;> decide +kernel
+
+example : (∃ b, eval c15Good c15Env = .ok (.bool b)) ∨ (∃ k, eval c15Good c15Env = .error k ∧ Allowed k) :=
+  C15_condition_sound_partial (c15Γ true) c15Env (c15Env_ok true) c15Good (by decide +kernel)
 
 end CedarGo
